@@ -92,6 +92,13 @@ def histories(rng, n):
             intact = all(numpy.array_equal(a, snap) for a, snap in held)
             held.append((t, t.copy()))
             tables.append(impl.jsonable(t))
+            if h % 2 == 1 and rng.random() < 0.6:
+                # the caller customises its own table after the call (rows stay permutations); a later call with the same seed must
+                # still return the documented table, and tables handed out earlier must not follow the edit
+                for _ in range(rng.randint(1, 3)):
+                    row = rng.randrange(len(t))
+                    t[row] = t[row][::-1].copy()
+                held[-1] = (t, t.copy())
             events.append({"k": k, "seed": seed, "tid": len(tables), "intact": bool(intact), "other": other})
         if held:
             events[-1]["intact"] = bool(events[-1]["intact"] and all(numpy.array_equal(a, snap) for a, snap in held))
